@@ -335,6 +335,19 @@ func genC12Reqs(r *rng, n int) []c12Req {
 		known = append(known, k)
 		reqs = append(reqs, c12Req{Kind: "Insert", Tag: "valid", Ds: "d0", Id: k, Value: vec(3), Meta: map[string]string{"n": fmt.Sprint(i)}})
 	}
+	// d2: a cosine dataset receiving numerically parallel vectors - the float32 cosine of v and c*v rounds to either
+	// side of 1, so the raw kernel value 1 - cos can be a tiny negative number; plus a repeated and an opposite vector
+	reqs = append(reqs, c12Req{Kind: "Create", Tag: "valid", Dim: 3, Space: 2, Parts: 1, Repl: 1})
+	for j := 0; j < 6; j++ {
+		v := [3]float32{float32(1+r.intn(30)) / 10, float32(1+r.intn(30)) / 10, float32(1+r.intn(30)) / 10}
+		sc := func(c float32) []uint32 {
+			return []uint32{math.Float32bits(c * v[0]), math.Float32bits(c * v[1]), math.Float32bits(c * v[2])}
+		}
+		for _, c := range []float32{1, 3, 10, 1, -1}[:3+j%3] {
+			reqs = append(reqs, c12Req{Kind: "Insert", Tag: "valid-parallel", Ds: "d2", Id: id(), Value: sc(c)})
+		}
+		reqs = append(reqs, c12Req{Kind: "Search", Tag: "valid-parallel", Ds: "d2", Value: sc(7), K: 3})
+	}
 	nan, inf := math.Float32bits(float32(math.NaN())), math.Float32bits(float32(math.Inf(1)))
 	big := math.Float32bits(3e38)
 	longKey, longVal := strings.Repeat("k", 300), strings.Repeat("v", 70000)
@@ -352,6 +365,10 @@ func genC12Reqs(r *rng, n int) []c12Req {
 		{Kind: "Insert", Tag: "nan", Ds: "d0", Id: id(), Value: []uint32{nan, 0, nan}},
 		{Kind: "Insert", Tag: "inf", Ds: "d0", Id: id(), Value: []uint32{inf, inf, 0}},
 		{Kind: "Insert", Tag: "huge-values", Ds: "d0", Id: id(), Value: []uint32{big, big, big}},
+		{Kind: "Insert", Tag: "zero-vector-cosine", Ds: "d2", Id: id(), Value: []uint32{0, 0, 0}},
+		{Kind: "Search", Tag: "zero-query-cosine", Ds: "d2", Value: []uint32{0, 0, 0}, K: 4},
+		{Kind: "Insert", Tag: "huge-values-cosine", Ds: "d2", Id: id(), Value: []uint32{big, big, big}},
+		{Kind: "Insert", Tag: "tiny-values-cosine", Ds: "d2", Id: id(), Value: []uint32{1, 1, 1}},
 		{Kind: "Insert", Tag: "long-metadata-key", Ds: "d0", Id: id(), Value: vec(3), Meta: map[string]string{longKey: "x"}},
 		{Kind: "Insert", Tag: "long-metadata-value", Ds: "d0", Id: id(), Value: vec(3), Meta: map[string]string{"k": longVal}},
 		{Kind: "Insert", Tag: "many-metadata-keys", Ds: "d0", Id: id(), Value: vec(3), Meta: manyKeys(70000)},
@@ -449,7 +466,7 @@ func genC12Reqs(r *rng, n int) []c12Req {
 			}
 		}
 	}
-	created := 2
+	created := 3
 	for _, pi := range perm {
 		if len(reqs) >= n {
 			break
@@ -534,7 +551,7 @@ func coqC12Req(r c12Req) string {
 func runC12(a *args) error {
 	quietLogs()
 	isoVmemKB = 30000000
-	st := newStats("request sequences against a real anndb.Server over gRPC on loopback: two ordinary datasets and a few items, then every entry of a catalogue of malformed requests (zero / huge partition, replica and dimension counts, unknown metric, malformed / empty / duplicate ids at the single, batch and partition-batch RPCs, wrong-dimension and empty vectors, NaN / Inf / huge values, over-long and too many metadata entries, empty and oversized batches, k = 0 and k = 4e9, wrong-dimension queries on Search and SearchPartitions, unknown / malformed dataset and partition ids) in seed-dependent order with valid traffic in between; liveness checked after every request; then the process is killed and a new one started over the same store, which must come up and answer a search on every dataset; non-trivial = a sequence in which >= 10 malformed requests were sent; distinct by hash of the sequence")
+	st := newStats("request sequences against a real anndb.Server over gRPC on loopback: two ordinary datasets and a few items, a cosine dataset receiving numerically parallel, repeated and opposite vectors (6 groups of 3..5 inserts and a search), then every entry of a catalogue of malformed requests (zero / huge partition, replica and dimension counts, unknown metric, malformed / empty / duplicate ids at the single, batch and partition-batch RPCs, wrong-dimension and empty vectors, NaN / Inf / huge values, over-long and too many metadata entries, empty and oversized batches, k = 0 and k = 4e9, wrong-dimension queries on Search and SearchPartitions, unknown / malformed dataset and partition ids) in seed-dependent order with valid traffic in between; liveness checked after every request; then the process is killed and a new one started over the same store, which must come up and answer a search on every dataset; non-trivial = a sequence in which >= 10 malformed requests were sent; distinct by hash of the sequence")
 	if a.replay != "" {
 		var c c12Case
 		if err := readReplayCase(a.replay, &c); err != nil {
